@@ -602,7 +602,12 @@ func (k Keeper) RestartDutchAuctions(ctx sdk.Context, appID uint64) error {
 						// send that collateral to esm data for asset
 					}
 
-					err := k.UpdateProtocolData(ctx, dutchAuction.OutflowTokenInitAmount.Sub(dutchAuction.OutflowTokenCurrentAmount), burnToken, lockedVault.ExtendedPairId)
+					collateralSettled := dutchAuction.OutflowTokenInitAmount.Sub(dutchAuction.OutflowTokenCurrentAmount)
+					if flag {
+						// the unsold collateral has left for the esm redemption pool: none of it stays locked for the product
+						collateralSettled = dutchAuction.OutflowTokenInitAmount
+					}
+					err := k.UpdateProtocolData(ctx, collateralSettled, burnToken, lockedVault.ExtendedPairId)
 					if err != nil {
 						return err
 					}
